@@ -548,7 +548,10 @@ static Expect expectation(int kind, FK fk, long ltype, const Value &v, const std
       return expect_numeric(ltype == 's' ? 'y' : ltype, v);
     case FAlign:
       if (is_text(v) && v.sem == SLetters) return e;  // letter code: mapping not documented
-      return expect_numeric(ltype, v);
+      e = expect_numeric(ltype, v);
+      // text that is no uint8 goes to the letter parser, which skips characters it does not know by design
+      if (is_text(v) && e.known && e.val[0] == '!') e.known = false;
+      return e;
     case FClip:
       if (is_text(v) && v.sem == SLetters) {
         bool xyz = !v.text.empty();
@@ -557,7 +560,9 @@ static Expect expectation(int kind, FK fk, long ltype, const Value &v, const std
         if (xyz) { e.known = true; e.val = ren_int('y', n); e.why = "the axes the text names"; }
         return e;
       }
-      return expect_numeric('y', v);
+      e = expect_numeric('y', v);
+      if (is_text(v) && e.known && e.val[0] == '!') e.known = false;  // letter parser: unknown characters set bit 8 by design
+      return e;
   }
   return e;
 }
@@ -1018,11 +1023,11 @@ static void run_history(Ctx &c, int flavour, int kind, bool enumerated) {
       std::string d = diff(snap[src], after[t]);
       VP_CHECK(c, d.empty(), "copy-differs", "%s accepted (%d) but the copy differs from the source: %s", what.c_str(), ret, d.c_str());
       for (size_t i = 0; i < after[t].size(); i++)
-        if (after[t][i].strptr)
+        if (after[t][i].strptr && fk_of(kind, after[t][i].name) == FStr)  // clip reads as a constant of the library
           VP_CHECK(c, after[t][i].strptr != after[src][i].strptr, "copy-shares-string", "%s: %s of copy and source is the same storage %p", what.c_str(), after[t][i].name.c_str(), (const void *)after[t][i].strptr);
       c.label("copy:accepted");
       if (diff(fresh, after[t]).size()) { c.label("copy:of-changed-object"); ++changed; }
-      for (const Prop &p : after[t]) if (p.strptr) { c.label("copy:with-string"); break; }
+      for (const Prop &p : after[t]) if (p.strptr && fk_of(kind, p.name) == FStr) { c.label("copy:with-string"); break; }
     } else if (is_reset) {
       if (target_prop < 0 && op == 2) {
         std::string d = diff(fresh, after[t]);
@@ -1030,8 +1035,11 @@ static void run_history(Ctx &c, int flavour, int kind, bool enumerated) {
       } else if (target_prop >= 0) {
         std::string d = diff(snap[t], after[t], target_prop);
         VP_CHECK(c, d.empty(), "reset-changed-other", "%s (returns %d) changed another property: %s", what.c_str(), ret, d.c_str());
-        VP_CHECK(c, after[t][target_prop].val == fresh[target_prop].val, "reset-not-default", "%s (returns %d) leaves %s = %s, a fresh object has %s", what.c_str(), ret,
-                 fresh[target_prop].name.c_str(), printable(after[t][target_prop].val, 80).c_str(), printable(fresh[target_prop].val, 80).c_str());
+        std::string dflt = fresh[target_prop].val;  // "x"/"y" of text address one coordinate of pos
+        if (fk == FTextX) dflt = "pt:" + cur_component(fresh[target_prop].val, 0) + "," + cur_component(snap[t][target_prop].val, 1);
+        if (fk == FTextY) dflt = "pt:" + cur_component(snap[t][target_prop].val, 0) + "," + cur_component(fresh[target_prop].val, 1);
+        VP_CHECK(c, after[t][target_prop].val == dflt, "reset-not-default", "%s (returns %d) leaves %s = %s, a fresh object has %s", what.c_str(), ret,
+                 fresh[target_prop].name.c_str(), printable(after[t][target_prop].val, 80).c_str(), printable(dflt, 80).c_str());
         if (snap[t][target_prop].val != fresh[target_prop].val) { c.label("reset:of-changed-property"); ++changed; }
       } else {
         std::string d = diff(snap[t], after[t]);
